@@ -39,6 +39,7 @@ def rowSetattr (c a : Str) (v : Val) : SetRes :=
 def tableEnv : Env :=
   { loaded := isBuiltinsName
     importable := fun _ => false
+    lazy := fun _ => false
     modAttr := fun m n => if isBuiltinsName m then rowKind n else .missing
     builtinAttr := rowKind
     fmtName := fun _ _ => .error .notModelled
